@@ -55,15 +55,29 @@ class EnumIndex:
     def _variants(self, body):
         # split at top-level commas
         items, depth, cur = [], 0, []
+        in_str, prev = False, ''
         for ch in body:
+            if in_str:
+                # string literals (e.g. #[serde(rename = "<=")]) do not take part in bracket matching
+                cur.append(ch)
+                if ch == '"' and prev != '\\':
+                    in_str = False
+                prev = ch
+                continue
+            if ch == '"':
+                in_str = True
+                cur.append(ch)
+                prev = ch
+                continue
             if ch in '([{<':
                 depth += 1
-            elif ch in ')]}>':
+            elif ch in ')]}' or (ch == '>' and prev != '-'):
                 depth -= 1
             if ch == ',' and depth == 0:
                 items.append(''.join(cur)); cur = []
             else:
                 cur.append(ch)
+            prev = ch
         items.append(''.join(cur))
         out = []
         for it in items:
